@@ -133,6 +133,8 @@ type c05Case struct {
 	GroupN   int    `json:"group_size,omitempty"`
 	ListBlip bool   `json:"pending_list_blip,omitempty"` // after the second chunk the proxy fails six pending-list calls in a row (a blip of a few milliseconds)
 	NoCT     bool   `json:"no_content_type,omitempty"`   // the backend declares no Content-Type at all
+	VMID     bool   `json:"vm_identity,omitempty"`       // through an agent that runs "on GCE" (fake metadata server) and stamps its calls with the VM identity token
+	Trailers bool   `json:"announced_trailers,omitempty"` // chunked response that announces trailer fields in its header and sends them after the last chunk
 	Stall    bool   `json:"stalled_upload,omitempty"`    // a large free-running response whose upload the proxy does not read until released (its own progress is not judged)
 	Class    string `json:"class"`
 }
@@ -275,6 +277,9 @@ func C05(r *core.Run) {
 			}
 			w.Field("Content-Length", fmt.Sprint(tot)).End()
 		} else {
+			if c.Trailers {
+				w.Field("Trailer", "X-Checksum, Server-Timing")
+			}
 			w.Field("Transfer-Encoding", "chunked").End()
 		}
 		conn.Write(w.Bytes())
@@ -388,7 +393,11 @@ func C05(r *core.Run) {
 		if out.missedAt < 0 && out.err == "" {
 			if !c.CL {
 				var cw rawhttp.Builder
-				cw.LastChunk(nil)
+				if c.Trailers {
+					cw.LastChunk([]rawhttp.Field{{Name: "X-Checksum", Value: "sum-" + id}, {Name: "Server-Timing", Value: "total;dur=12.5"}})
+				} else {
+					cw.LastChunk(nil)
+				}
 				conn.Write(cw.Bytes())
 			}
 			if _, ok := pxFor(c).Wait(id, T); ok {
@@ -452,8 +461,36 @@ func C05(r *core.Run) {
 		r.Finish(1)
 	}
 	defer agent3.Kill()
+	// a fourth agent that believes it runs on a GCE VM with a service account: every call to the proxy goes through the
+	// round tripper that adds the VM identity token
+	px4, err := fakes.NewProxy()
+	if err != nil {
+		r.Broken(err.Error())
+		r.Finish(1)
+	}
+	defer px4.Close()
+	px4.ListWait = 100 * time.Millisecond
+	var vmStamped int64
+	px4.OnResponse = func(id string, w http.ResponseWriter, req *http.Request) bool {
+		if req.Header.Get("X-Inverting-Proxy-VM-ID") != "" {
+			atomic.AddInt64(&vmStamped, 1)
+		}
+		in := getInner(id)
+		waitStall(id)
+		px4.AcceptUpload(id, w, req, in.feed)
+		in.finish()
+		return true
+	}
+	agent4, err := startAgent(r, agentBin, "agent-vmid", md, px4.URL(), backend.Addr(), "b5v", "--disable-gce-vm-header=false")
+	if err != nil {
+		r.Broken(err.Error())
+		r.Finish(1)
+	}
+	defer agent4.Kill()
 	pxFor = func(c c05Case) *fakes.Proxy {
 		switch {
+		case c.VMID:
+			return px4
 		case c.HTML:
 			return px2
 		case c.Wrapped:
@@ -463,10 +500,10 @@ func C05(r *core.Run) {
 	}
 
 	// the progress bounds below are for chunks, not for the start-up of three agent processes on a busy machine
-	for d := time.Now().Add(60 * time.Second); time.Now().Before(d) && (px.Lists() == 0 || px2.Lists() == 0 || px3.Lists() == 0); {
+	for d := time.Now().Add(60 * time.Second); time.Now().Before(d) && (px.Lists() == 0 || px2.Lists() == 0 || px3.Lists() == 0 || px4.Lists() == 0); {
 		time.Sleep(10 * time.Millisecond)
 	}
-	if px.Lists() == 0 || px2.Lists() == 0 || px3.Lists() == 0 {
+	if px.Lists() == 0 || px2.Lists() == 0 || px3.Lists() == 0 || px4.Lists() == 0 {
 		r.Broken("C05: an agent made no pending-list call within 60 s of its start")
 		r.Finish(1)
 	}
@@ -545,7 +582,15 @@ func C05(r *core.Run) {
 			}
 			cnt, maxSz = len(c.Chunks), 8
 		}
+		c.VMID = i%9 == 8 && !c.HTML && !c.Wrapped
+		c.Trailers = i%7 == 5 && !c.CL && c.PaceMs == 0
 		c.Class = fmt.Sprintf("n=%d|max=%s|mix=%v|pause=%d|sse=%v|cl=%v|shim-html=%v|wrapped=%v|pace=%d|status=%d|no-ct=%v", cnt, sizeClass(maxSz), szClass >= len(sizes), c.PauseMs, c.SSE, c.CL, c.HTML, c.Wrapped, c.PaceMs, c.Status, c.NoCT)
+		if c.Trailers {
+			c.Class += "|announced-trailers"
+		}
+		if c.VMID {
+			c.Class += "|vm-identity"
+		}
 		cases = append(cases, c)
 	}
 	// fixed cases: a 200 response that declares no Content-Type and starts with small pieces, fetched as a page navigation
@@ -821,10 +866,12 @@ func C05(r *core.Run) {
 	r.Set("chunks_observed_in_lock_step", len(lat))
 	r.Set("body_bytes_streamed", total)
 	<-h2Done
-	judgeProcs(r, true, agent, agent2, agent3)
+	r.Set("uploads_stamped_with_vm_identity", atomic.LoadInt64(&vmStamped))
+	judgeProcs(r, true, agent, agent2, agent3, agent4)
 	agent.Kill()
 	agent2.Kill()
 	agent3.Kill()
+	agent4.Kill()
 	r.JudgeRaces(core.ParseRaceLogs(filepath.Join(r.WorkDir, "race-")))
 	r.Finish(r.Pick(30, 400))
 }
